@@ -4,6 +4,7 @@ package main
 // the first advance), T15w (delimited lexemes are measured from Pos/End).
 
 import (
+	"os"
 	"fmt"
 	"go/ast"
 	"go/constant"
@@ -43,6 +44,37 @@ func constSet(v ssa.Value, idx int, seen map[ssa.Value]bool, out map[int64]bool)
 		return constSet(x.X, idx, seen, out)
 	case *ssa.ChangeType:
 		return constSet(x.X, idx, seen, out)
+	case *ssa.Parameter:
+		// a parameter of an unexported function or a closure that is only ever called directly: the union over
+		// its call sites
+		f := x.Parent()
+		if f == nil || curProg == nil || (f.Parent() == nil && (f.Object() == nil || f.Object().Exported())) {
+			return false
+		}
+		pi := -1
+		for i, q := range f.Params {
+			if q == x {
+				pi = i
+			}
+		}
+		var sites []ssa.CallInstruction
+		if f.Parent() != nil {
+			var ok bool
+			if sites, ok = localClosureCalls(f); !ok {
+				return false
+			}
+		} else {
+			sites = (cgView{&Ctx{P: curProg}}).callersOf(f)
+		}
+		if pi < 0 || len(sites) == 0 {
+			return false
+		}
+		for _, site := range sites {
+			if pi >= len(site.Common().Args) || !constSet(site.Common().Args[pi], idx, seen, out) {
+				return false
+			}
+		}
+		return true
 	case *ssa.Extract:
 		if call, ok := x.Tuple.(*ssa.Call); ok {
 			return constSetCall(call, x.Index, seen, out)
@@ -634,7 +666,12 @@ func ruleSemantic(c *Ctx) {
 }
 
 // ruleTokenWidth (T15w): in the semantic tokenizer the length of a token kind whose Value drops delimiters
-// is adjusted in a branch on that kind.
+// differs from the length a token of an ordinary kind gets.
+//
+// The length stored into the semantic token is specialised per token kind: the function computing it is walked
+// with every comparison of the lexer token's Type against a constant decided for that kind, which leaves a set
+// of reachable length expressions.  A delimiter-dropping kind must reach an expression that an ordinary kind
+// (one no comparison mentions) does not reach - otherwise its length is taken from the value alone.
 func ruleTokenWidth(c *Ctx) {
 	kinds := delimiterDroppingKinds(c)
 	var kl []string
@@ -644,137 +681,337 @@ func ruleTokenWidth(c *Ctx) {
 	sort.Strings(kl)
 	c.census("T15w", "token kinds whose value drops delimiters (from the lexer)", len(kl), 2)
 	c.note("delimiter-dropping token kinds: %s", strings.Join(kl, ", "))
-	pk := c.P.ByRel["internal/server"]
-	info := pk.TypesInfo
-	var tokFd *ast.FuncDecl
-	for _, f := range pk.Syntax {
-		for _, d := range f.Decls {
-			if fd, ok := d.(*ast.FuncDecl); ok && fd.Body != nil && fd.Type.Results != nil && len(fd.Type.Results.List) == 1 && fd.Type.Params != nil && len(fd.Type.Params.List) == 1 {
-				if typeHasSuffix(info.TypeOf(fd.Type.Results.List[0].Type), "[]"+modPath+"/internal/server.semanticToken") && types.TypeString(info.TypeOf(fd.Type.Params.List[0].Type), nil) == "string" {
-					tokFd = fd
-				}
-			}
+	spk := c.P.SSAPkg("internal/server")
+	ppk := c.P.ByRel["internal/parser"]
+	var tokFn *ssa.Function
+	for _, f := range c.P.ModuleFuncs() {
+		if f.Pkg != spk || f.Parent() != nil || f.Signature.Recv() != nil || f.Signature.Params().Len() != 1 || f.Signature.Results().Len() != 1 {
+			continue
+		}
+		if typeHasSuffix(f.Signature.Results().At(0).Type(), "[]"+modPath+"/internal/server.semanticToken") && types.TypeString(f.Signature.Params().At(0).Type(), nil) == "string" {
+			tokFn = f
 		}
 	}
-	if tokFd == nil {
+	if tokFn == nil {
 		c.undecided("T15w", "server", "semantic tokenizer", token.NoPos, "function (string) []semanticToken not found")
 		return
 	}
-	fname := c.P.declName(tokFd)
-	// where the length is computed: the variable stored into the token's length field, or the body of the
-	// module function whose result is stored there
-	scope := ast.Node(tokFd.Body)
-	sinfo := info
-	var lenVars []types.Object
-	viaReturn := false
-	ast.Inspect(tokFd.Body, func(x ast.Node) bool {
-		cl, ok := x.(*ast.CompositeLit)
-		if !ok || !typeHasSuffix(info.TypeOf(cl), "internal/server.semanticToken") {
-			return true
-		}
-		for _, el := range cl.Elts {
-			kv, ok := el.(*ast.KeyValueExpr)
-			if !ok || identOf(kv.Key).Name != "length" {
-				continue
-			}
-			v := ast.Unparen(kv.Value)
-			// strip a conversion uint32(x)
-			if call, ok := v.(*ast.CallExpr); ok && len(call.Args) == 1 {
-				if tv, ok := info.Types[call.Fun]; ok && tv.IsType() {
-					v = ast.Unparen(call.Args[0])
-				}
-			}
-			switch y := v.(type) {
-			case *ast.Ident:
-				if o := info.Uses[y]; o != nil {
-					lenVars = append(lenVars, o)
-				}
-			case *ast.CallExpr:
-				if o, ok := calleeOf(info, y).(*types.Func); ok {
-					if decl := c.P.declOf[o]; decl != nil && decl.Body != nil {
-						scope, sinfo, viaReturn = decl.Body, c.P.InfoFor(decl), true
-						ast.Inspect(decl.Body, func(z ast.Node) bool {
-							if r, ok := z.(*ast.ReturnStmt); ok && len(r.Results) == 1 {
-								if o := sinfo.Uses[identOf(r.Results[0])]; o != nil {
-									lenVars = append(lenVars, o)
-								}
-							}
-							return true
-						})
+	fname := funcName(tokFn)
+	// the lengths stored by the tokenizer
+	var lens []ssa.Value
+	region := []*ssa.Function{tokFn}
+	inRegion := map[*ssa.Function]bool{tokFn: true}
+	for i := 0; i < len(region); i++ {
+		for _, b := range region[i].Blocks {
+			for _, ins := range b.Instrs {
+				if call, ok := ins.(ssa.CallInstruction); ok {
+					h := call.Common().StaticCallee()
+					if h == nil || h.Blocks == nil || h.Pkg != spk || inRegion[h] {
+						continue
 					}
-				}
-			}
-		}
-		return true
-	})
-	isLenVar := func(e ast.Expr) bool {
-		o := sinfo.Uses[identOf(e)]
-		if o == nil {
-			o = sinfo.Defs[identOf(e)]
-		}
-		for _, l := range lenVars {
-			if o != nil && o == l {
-				return true
-			}
-		}
-		return false
-	}
-	// kinds mentioned in a case clause / condition whose body sets the length
-	adjusted := map[string]bool{}
-	ast.Inspect(scope, func(x ast.Node) bool {
-		var conds []ast.Expr
-		var body []ast.Stmt
-		switch s := x.(type) {
-		case *ast.CaseClause:
-			conds, body = s.List, s.Body
-		case *ast.IfStmt:
-			conds, body = []ast.Expr{s.Cond}, s.Body.List
-		default:
-			return true
-		}
-		assignsLen := false
-		for _, st := range body {
-			ast.Inspect(st, func(y ast.Node) bool {
-				switch a := y.(type) {
-				case *ast.AssignStmt:
-					for _, l := range a.Lhs {
-						if isLenVar(l) {
-							assignsLen = true
+					for _, a := range call.Common().Args {
+						t := a.Type()
+						if pt, ok := t.Underlying().(*types.Pointer); ok {
+							t = pt.Elem()
+						}
+						if typeHasSuffix(t, "parser.Token") && !inRegion[h] {
+							inRegion[h] = true
+							region = append(region, h)
 						}
 					}
-				case *ast.IncDecStmt:
-					if isLenVar(a.X) {
-						assignsLen = true
-					}
-				case *ast.ReturnStmt:
-					if viaReturn {
-						assignsLen = true
-					}
 				}
-				return true
-			})
+			}
 		}
-		if !assignsLen {
-			return true
-		}
-		for _, ce := range conds {
-			ast.Inspect(ce, func(y ast.Node) bool {
-				if se, ok := y.(*ast.SelectorExpr); ok {
-					if k, ok := sinfo.Uses[se.Sel].(*types.Const); ok && typeHasSuffix(k.Type(), "parser.TokenType") {
-						adjusted[se.Sel.Name] = true
-					}
+	}
+	for _, g := range region {
+		for _, b := range g.Blocks {
+			for _, ins := range b.Instrs {
+				st, ok := ins.(*ssa.Store)
+				if !ok {
+					continue
 				}
-				return true
-			})
+				fa, ok := st.Addr.(*ssa.FieldAddr)
+				if ok && fieldKey(fa.X.Type(), fa.Field) == "server.semanticToken.length" {
+					lens = append(lens, st.Val)
+				}
+			}
 		}
-		return true
-	})
-	c.census("T15w", "variables / results carrying the token length", len(lenVars), 1)
+	}
+	c.census("T15w", "variables / results carrying the token length", len(lens), 1)
+	kindVal := func(name string) (int64, bool) {
+		if k, ok := ppk.Types.Scope().Lookup(name).(*types.Const); ok {
+			return constant.Int64Val(constant.ToInt(k.Val()))
+		}
+		return 0, false
+	}
 	for _, k := range kl {
-		// kinds that are not mapped to a semantic token at all need no width
-		c.check(adjusted[k], "T15w", fname, "width of "+k+" accounts for its delimiters", tokFd.Pos(),
-			"the token length is adjusted in a branch on "+k,
+		kv, ok := kindVal(k)
+		if !ok {
+			c.undecided("T15w", fname, "width of "+k+" accounts for its delimiters", tokFn.Pos(), "token kind constant not found")
+			continue
+		}
+		special := false
+		for _, l := range lens {
+			a := lengthsUnderKind(l, kv, 0)
+			g := lengthsUnderKind(l, -12345, 0)
+			for v := range a {
+				if !g[v] {
+					special = true
+				}
+			}
+		}
+		c.check(special, "T15w", fname, "width of "+k+" accounts for its delimiters", tokFn.Pos(),
+			"a token of kind "+k+" reaches a length expression that an ordinary token does not",
 			"the lexer drops delimiters from the value of "+k+" but the semantic tokenizer takes that token's length from the value alone: the token does not cover its lexeme")
 	}
 }
 
+// isTokenTypeRead: v reads the Type field of a lexer token.
+func isTokenTypeRead(v ssa.Value) bool {
+	switch x := stripConv(v).(type) {
+	case *ssa.Field:
+		if typeHasSuffix(x.X.Type(), "parser.Token") {
+			if st, ok := x.X.Type().Underlying().(*types.Struct); ok {
+				return typeHasSuffix(st.Field(x.Field).Type(), "parser.TokenType")
+			}
+		}
+	case *ssa.UnOp:
+		if x.Op == token.MUL {
+			if fa, ok := x.X.(*ssa.FieldAddr); ok {
+				bt := fa.X.Type().Underlying().(*types.Pointer).Elem()
+				if typeHasSuffix(bt, "parser.Token") {
+					return typeHasSuffix(fa.Type().Underlying().(*types.Pointer).Elem(), "parser.TokenType")
+				}
+			}
+		}
+	}
+	return false
+}
+
+// feasibleEdges: the CFG edges of f that can be taken when every lexer token's Type equals kind.
+func feasibleEdges(f *ssa.Function, kind int64) map[[2]int]bool {
+	edges := map[[2]int]bool{}
+	seen := map[int]bool{}
+	var decide func(cond ssa.Value) (val, known bool)
+	decide = func(cond ssa.Value) (bool, bool) {
+		switch x := cond.(type) {
+		case *ssa.UnOp:
+			if x.Op == token.NOT {
+				v, k := decide(x.X)
+				return !v, k
+			}
+		case *ssa.BinOp:
+			if x.Op != token.EQL && x.Op != token.NEQ {
+				return false, false
+			}
+			a, b := x.X, x.Y
+			if _, isC := a.(*ssa.Const); isC {
+				a, b = b, a
+			}
+			kc, isC := b.(*ssa.Const)
+			if !isC || kc.Value == nil || !isTokenTypeRead(a) {
+				return false, false
+			}
+			cv, ok := constant.Int64Val(constant.ToInt(kc.Value))
+			if !ok {
+				return false, false
+			}
+			return (cv == kind) == (x.Op == token.EQL), true
+		}
+		return false, false
+	}
+	var walk func(b *ssa.BasicBlock)
+	walk = func(b *ssa.BasicBlock) {
+		if seen[b.Index] {
+			return
+		}
+		seen[b.Index] = true
+		take := []bool{true, true}
+		if ifi, ok := b.Instrs[len(b.Instrs)-1].(*ssa.If); ok {
+			if v, known := decide(ifi.Cond); known {
+				take = []bool{v, !v}
+			}
+		}
+		for i, s := range b.Succs {
+			if i < len(take) && !take[i] {
+				continue
+			}
+			edges[[2]int{b.Index, s.Index}] = true
+			walk(s)
+		}
+	}
+	if len(f.Blocks) > 0 {
+		walk(f.Blocks[0])
+	}
+	return edges
+}
+
+// lengthsUnderKind: the expressions v can stand for when the lexer token has the given kind: phi edges over
+// infeasible CFG edges are dropped, a helper that is handed the token is entered.
+func lengthsUnderKind(v ssa.Value, kind int64, depth int) map[ssa.Value]bool {
+	out := map[ssa.Value]bool{}
+	if depth > 4 {
+		out[v] = true
+		return out
+	}
+	seen := map[ssa.Value]bool{}
+	feas := map[*ssa.Function]map[[2]int]bool{}
+	edgesOf := func(f *ssa.Function) map[[2]int]bool {
+		if feas[f] == nil {
+			feas[f] = feasibleEdges(f, kind)
+		}
+		return feas[f]
+	}
+	var expand func(v ssa.Value)
+	expand = func(v ssa.Value) {
+		if seen[v] {
+			return
+		}
+		seen[v] = true
+		switch x := v.(type) {
+		case *ssa.Phi:
+			e := edgesOf(x.Parent())
+			for i, pb := range x.Block().Preds {
+				if e[[2]int{pb.Index, x.Block().Index}] {
+					expand(x.Edges[i])
+				}
+			}
+			return
+		case *ssa.Convert:
+			// a conversion of a merge: look through
+			if _, isPhi := x.X.(*ssa.Phi); isPhi {
+				expand(x.X)
+				return
+			}
+			if call, isCall := x.X.(*ssa.Call); isCall && call.Call.StaticCallee() != nil && inModule(call.Call.StaticCallee()) {
+				expand(x.X)
+				return
+			}
+		case *ssa.UnOp:
+			if al, ok := x.X.(*ssa.Alloc); ok && x.Op == token.MUL {
+				// a local that is not lifted to a register (address taken): every feasible store
+				e := edgesOf(x.Parent())
+				n := 0
+				for _, r := range *al.Referrers() {
+					if st, ok := r.(*ssa.Store); ok && st.Addr == ssa.Value(al) {
+						reach := st.Block().Index == 0
+						for k := range e {
+							if k[1] == st.Block().Index {
+								reach = true
+							}
+						}
+						if reach {
+							n++
+							expand(st.Val)
+						}
+					}
+				}
+				if n > 0 {
+					return
+				}
+			}
+		case *ssa.Call:
+			h := x.Call.StaticCallee()
+			takesTok := false
+			if h != nil && h.Blocks != nil && inModule(h) {
+				for _, a := range x.Call.Args {
+					t := a.Type()
+					if pt, ok := t.Underlying().(*types.Pointer); ok {
+						t = pt.Elem()
+					}
+					if typeHasSuffix(t, "parser.Token") {
+						takesTok = true
+					}
+				}
+			}
+			if takesTok && h.Signature.Results().Len() == 1 {
+				e := edgesOf(h)
+				for _, b := range h.Blocks {
+					r, ok := b.Instrs[len(b.Instrs)-1].(*ssa.Return)
+					if !ok {
+						continue
+					}
+					reach := b.Index == 0
+					for k := range e {
+						if k[1] == b.Index {
+							reach = true
+						}
+					}
+					if reach {
+						expand(unspillResult(r.Results[0], b))
+					}
+				}
+				return
+			}
+		}
+		out[v] = true
+	}
+	expand(v)
+	return out
+}
+
+// localClosureCalls: the call sites of a closure that is only ever called (directly, through the local variable
+// holding it, or from nested function literals capturing that variable) - it is never stored elsewhere, passed
+// on or returned, so these are all its calls.
+func localClosureCalls(f *ssa.Function) ([]ssa.CallInstruction, bool) {
+	par := f.Parent()
+	if par == nil {
+		return nil, false
+	}
+	top := par
+	for top.Parent() != nil {
+		top = top.Parent()
+	}
+	var family []*ssa.Function
+	var walk func(g *ssa.Function)
+	walk = func(g *ssa.Function) {
+		family = append(family, g)
+		for _, a := range g.AnonFuncs {
+			walk(a)
+		}
+	}
+	walk(top)
+	var sites []ssa.CallInstruction
+	for _, g := range family {
+		for _, b := range g.Blocks {
+			for _, ins := range b.Instrs {
+				var callee ssa.Value
+				if call, ok := ins.(ssa.CallInstruction); ok && !call.Common().IsInvoke() {
+					callee = call.Common().Value
+					if fn := resolveLocalFunc(callee); fn == f {
+						sites = append(sites, call)
+					}
+				}
+				for _, op := range ins.Operands(nil) {
+					if *op == nil || *op == callee {
+						continue
+					}
+					if _, isFn := (*op).Type().Underlying().(*types.Signature); !isFn {
+						continue
+					}
+					if resolveLocalFunc(*op) != f {
+						continue
+					}
+					switch x := ins.(type) {
+					case *ssa.MakeClosure:
+						if x.Fn == *op {
+							continue // its creation
+						}
+					case *ssa.Store:
+						if _, toCell := x.Addr.(*ssa.Alloc); toCell && x.Val == *op {
+							continue // the local variable holding the closure
+						}
+					}
+					if os.Getenv("HLDEBUG_CLOS") != "" {
+						fmt.Fprintln(os.Stderr, "closure escapes:", f, ins, "in", g)
+					}
+					return nil, false
+				}
+			}
+		}
+	}
+	if os.Getenv("HLDEBUG_CLOS") != "" {
+		fmt.Fprintln(os.Stderr, "closure sites:", f, len(sites))
+	}
+	return sites, len(sites) > 0
+}
